@@ -98,6 +98,10 @@ def ba_frombytes(it, ba, b):
 
 
 def bytes_len(it, b):
+    if type(b).__name__ == 'Rope':
+        return K(b.n)
+    if isinstance(b, Term) and b.op == 'bslice' and isinstance(b.a[1], K) and isinstance(b.a[2], K):
+        return K(b.a[2].v - b.a[1].v)
     if isinstance(b, K) and isinstance(b.v, (bytes, bytearray, str)):
         return K(len(b.v))
     if isinstance(b, Sym) and b.meta.get('n') is not None:
@@ -936,6 +940,8 @@ def _isinst1(it, v, ty):
             return False
         if isinstance(v, Sym) and v.meta.get('cls') is not None:
             return v.meta['cls'] == ty.name
+        if isinstance(v, Term) and v.op in ('fstr', 'hex', 'decode', 'strfmt', 'cat', 'to_bytes', 'sha256', 'sha512', 'tobytes', 'fromhex', 'crc', 'bslice', 'from_bytes'):
+            return False
         return None
     if isinstance(ty, Builtin):
         pyt = _TYPES.get(ty.name)
@@ -964,6 +970,10 @@ def _isinst1(it, v, ty):
         if isinstance(v, Term):
             if v.op in ('cat', 'to_bytes', 'sha256', 'tobytes', 'fromhex', 'slice') and ty.name == 'bytes':
                 return True if v.op != 'slice' else None
+            if v.op in ('fstr', 'hex', 'decode', 'strfmt'):
+                return ty.name == 'str'
+            if v.op in ('cat', 'to_bytes', 'sha256', 'sha512', 'tobytes', 'fromhex', 'crc', 'bslice'):
+                return False
         return None
     if isinstance(ty, Ext):
         last = ty.dotted.split('.')[-1]
